@@ -1,9 +1,29 @@
 package PKG
 
 import (
+	"net"
+
 	"github.com/google/gopacket/layers"
 	"github.com/google/gopacket/pcap"
 )
+
+// target subnets (run parameter SUBNET); the first is the one of the quick tier
+var c03Subnets = []func() *net.IPNet{
+	func() *net.IPNet { return &net.IPNet{IP: net.IPv4(192, 168, 0, 0).To4(), Mask: net.CIDRMask(24, 32)} },
+	func() *net.IPNet { return &net.IPNet{IP: net.IPv4(10, 0, 0, 0).To4(), Mask: net.CIDRMask(8, 32)} },
+	func() *net.IPNet { return &net.IPNet{IP: net.IPv4(192, 168, 0, 128).To4(), Mask: net.CIDRMask(25, 32)} },
+	func() *net.IPNet { return &net.IPNet{IP: net.IPv4(192, 168, 0, 77).To4(), Mask: net.CIDRMask(32, 32)} },
+	func() *net.IPNet { return &net.IPNet{IP: net.IPv4(0, 0, 0, 0).To4(), Mask: net.CIDRMask(0, 32)} },
+	func() *net.IPNet { return &net.IPNet{IP: net.IPv4(172, 16, 0, 0).To4(), Mask: net.CIDRMask(12, 32)} },
+}
+
+func c03InNet(src []byte, n *net.IPNet) bool {
+	ok := true
+	for i := 0; i < 4; i++ {
+		ok = verifAnd(ok, src[i]&n.Mask[i] == n.IP[i])
+	}
+	return ok
+}
 
 // c03Compile compiles a filter expression with libpcap exactly as afpacket.Source.SetBPFFilter does.
 func c03Compile(vpn bool, snaplen int, expr string) ([]pcap.BPFInstruction, error) {
